@@ -1,6 +1,6 @@
 SPECIFICATION Spec
 CONSTANTS
-  DtNames = {"schar", "uchar", "char", "short", "int", "long", "double", "ldouble", "cdouble", "AR", "A2", "CS", "SA"}
+  DtNames = {"schar", "uchar", "char", "short", "int", "long", "double", "ldouble", "cdouble", "AR", "A2", "CS", "SA", "FC", "IC", "PK"}
   Edits = 1
   MaxTail = 2
   Wide = FALSE
